@@ -66,12 +66,63 @@ Fixpoint latest (h : list event) (k : nat) (init : option (list K)) : option (li
   end.
 
 (* ------------------------------------------------------------------------------------------ *)
-(* BaseEngine._run over several program segments.
+(* BaseEngine._run over several program segments (code as it is now).
+
+   The engine keeps `self._measured_vals`: mode -> latest measured value since the backend was
+   initialised; it is updated after every segment from that segment's samples_dict, cleared by reset (and
+   when no program has run).  Before a later segment runs,
+       for k, v in self._measured_vals.items(): if k in p.reg_refs: p.reg_refs[k].val = v
+   on top of whatever the segment's Program object already holds in its RegRefs: nothing if it was
+   constructed before its predecessor ran ("eager"), a deep copy of the predecessor's RegRefs including
+   their values if it was constructed from the predecessor afterwards ("lazy"). *)
+
+Definition mvals := list (nat * list K).
+
+Fixpoint mv_lookup (l : mvals) (k : nat) : option (list K) :=
+  match l with
+  | [] => None
+  | (j, v) :: r => if Nat.eqb k j then Some v else mv_lookup r k
+  end.
+
+(* dict update with one measurement's values, in zip order *)
+Fixpoint mv_meas (l : mvals) (ks : list nat) (vs : list (list K)) : mvals :=
+  match ks, vs with
+  | k :: ks', v :: vs' => mv_meas ((k, v) :: l) ks' vs'
+  | _, _ => l
+  end.
+
+Fixpoint mv_after (l : mvals) (h : list event) : mvals :=
+  match h with
+  | [] => l
+  | EMeas ks vs :: h' => mv_after (mv_meas l ks vs) h'
+  | EReset :: h' => mv_after [] h'
+  | _ :: h' => mv_after l h'
+  end.
+
+Definition handover (base : store) (mv : mvals) : store :=
+  fun k => match mv_lookup mv k with Some v => Some v | None => base k end.
+
+Fixpoint run_segs (lazy : bool) (free : nat -> option (value K)) (s : store) (mv : mvals)
+  (segs : list (list event)) : store * list (res K) :=
+  match segs with
+  | [] => (s, [])
+  | h :: rest =>
+      let (s1, o1) := run_seg free s h in
+      let mv1 := mv_after mv h in
+      match rest with
+      | [] => (s1, o1)
+      | _ => let (s2, o2) := run_segs lazy free (handover (if lazy then s1 else empty) mv1) mv1 rest in
+             (s2, o1 ++ o2)
+      end
+  end.
+
+(* ------------------------------------------------------------------------------------------ *)
+(* The hand-over as it was before fix 711526c, kept (names *_old) so that its refutation stays checked.
 
    self.samples after a segment (one shot): one row holding, for the modes measured in that segment in
-   ascending order, the last outcome of each.  The next segment's RegRefs then get
+   ascending order, the last outcome of each.  The next segment's RegRefs then got
        for k, v in enumerate(self.samples): p.reg_refs[k].val = v
-   i.e. RegRef 0 receives the whole row and nothing else is set. *)
+   i.e. RegRef 0 received the whole row and nothing else was set. *)
 
 Fixpoint ins (k : nat) (v : list K) (l : list (nat * list K)) : list (nat * list K) :=
   match l with
@@ -98,25 +149,13 @@ Fixpoint seg_samples (h : list event) (acc : list (nat * list K)) : list (nat * 
 (* the single row of self.samples for one shot *)
 Definition sample_row (l : list (nat * list K)) : list K := flat_map (fun kv => snd kv) l.
 
-(* what the next segment's RegRefs hold *)
-Definition fwd_written (s : store) (h : list event) : store :=
+Definition fwd_written_old (s : store) (h : list event) : store :=
   match seg_samples h [] with
   | [] => empty
   | l => upd empty 0 (sample_row l)
   end.
 
-(* the same loop when the next Program object was constructed from its predecessor *after* that one
-   ran: Program.__init__ deep-copies the parent's RegRefs including their values, then RegRef 0 is
-   overwritten with the row *)
-Definition fwd_written_lazy (s : store) (h : list event) : store :=
-  match seg_samples h [] with
-  | [] => s
-  | l => upd s 0 (sample_row l)
-  end.
-
-Definition fwd_ideal (s : store) (h : list event) : store := s.
-
-Fixpoint run_segs (fwd : store -> list event -> store) (free : nat -> option (value K)) (s : store)
+Fixpoint run_segs_old (free : nat -> option (value K)) (s : store)
   (segs : list (list event)) : store * list (res K) :=
   match segs with
   | [] => (s, [])
@@ -124,7 +163,7 @@ Fixpoint run_segs (fwd : store -> list event -> store) (free : nat -> option (va
       let (s1, o1) := run_seg free s h in
       match rest with
       | [] => (s1, o1)
-      | _ => let (s2, o2) := run_segs fwd free (fwd s1 h) rest in (s2, o1 ++ o2)
+      | _ => let (s2, o2) := run_segs_old free (fwd_written_old s1 h) rest in (s2, o1 ++ o2)
       end
   end.
 
